@@ -1,33 +1,63 @@
-// C10 harness (known finding adl.eager-apply_slice): array/array/slice.hpp declares
+// C10 harness (regression of the repaired defect adl.eager-apply_slice): array/array/slice.hpp declares
 //     array::apply_slice(const array_t&, const tuple_t<slices_t...>&, context, output, resolver)
-// which argument-dependent lookup finds — and partial ordering prefers — for the *unqualified* calls
-// `apply_slice(*lhs, l_slice_indices)` inside view::matmul_t::view_at (view/matmul.hpp:414-426).  The slices become
-// evaluated temporaries, `multiply(l_slice, r_slice)` stores their addresses, and the reduce view returned from view_at
-// reads them after they died.  So in a TU that includes both headers array::matmul / view::matmul no longer return the
-// matrix product (garbage, std::out_of_range from a wild index, or a sanitizer report).
-//   adl a=<n,k> b=<k,m> : answer ok shape=… data=… of array::matmul(a, b) after checking it against view::matmul(a, b)
+// which argument-dependent lookup found — and partial ordering preferred — for the *unqualified* calls
+// `apply_slice(…)` inside view::matmul_t::view_at, view::flip, view::slice, view::split, reduce_t and accumulate_t.
+// In view::matmul the slices then were evaluated temporaries whose addresses the returned reduce view kept (reads of
+// dead stack memory); view::flip / view::slice / view::split silently returned evaluated copies instead of views.
+// The calls are now qualified (view::apply_slice).  This TU includes the eager header together with those views and is
+// built with ASan/UBSan:
+//   adl what=matmul a=<n,k> b=<k,m>     ok shape=… data=… of array::matmul(a, b), checked against view::matmul(a, b)
+//   adl what=flip a=<shape> axis=<k>    ok lazy=<is_view> shape=… data=…      (view::flip must stay a view)
+//   adl what=slice a=<r,c>              ok lazy=<is_view> … of view::slice(a, {0,r}, {1,c})
+//   adl what=split a=<shape>            ok lazy=<is_view> … of the first part of view::split(a, 2, 0)
+//   adl what=sum|cumsum a=<shape> axis=<k>   ok shape=… data=… of array::sum(a, axis) / array::cumsum(a, axis, None)
 #include "nmtools/array/ndarray.hpp"
 #include "nmtools/array/array/slice.hpp"
 #include "nmtools/array/array/matmul.hpp"
+#include "nmtools/array/array/flip.hpp"
+#include "nmtools/array/array/sum.hpp"
+#include "nmtools/array/array/cumsum.hpp"
+#include "nmtools/array/view/split.hpp"
 #include "nmtools/array/index/ndindex.hpp"
 #include "proto.hpp"
 namespace nm = nmtools; namespace na = nmtools::array; namespace view = nmtools::view; namespace ix = nmtools::index;
+namespace meta = nmtools::meta;
 using namespace proto;
 using arr_t = na::ndarray_t<std::vector<int>, std::vector<size_t>>;
 
 static arr_t mk(const uvec& s, int base) { arr_t a; a.resize(s); for (size_t k = 0; k < nm::size(a); k++) a.data()[k] = (int)k + base; return a; }
 template <typename V> static std::string dump(const V& v) {
-    auto sh = nm::shape(v); uvec s; for (size_t i = 0; i < nm::len(sh); i++) s.push_back(nm::at(sh, i));
-    auto nd = ix::ndindex(s); ivec d;
-    for (size_t k = 0; k < nd.size(); k++) d.push_back((long long)nm::apply_at(v, nd[k]));
-    return "shape=" + fmt(s) + " data=" + fmt(d);
+    if constexpr (meta::is_maybe_v<V>) { if (!nm::has_value(v)) return "nothing"; return dump(*v); }
+    else {
+        auto sh = nm::shape(v); uvec s; for (size_t i = 0; i < nm::len(sh); i++) s.push_back(nm::at(sh, i));
+        auto nd = ix::ndindex(s); ivec d;
+        for (size_t k = 0; k < nd.size(); k++) d.push_back((long long)nm::apply_at(v, nd[k]));
+        return "shape=" + fmt(s) + " data=" + fmt(d);
+    }
+}
+template <typename V> static std::string lazy(const V& v) {
+    if constexpr (meta::is_maybe_v<V>) { if (!nm::has_value(v)) return "nothing"; return lazy(*v); }
+    else return std::string("lazy=") + (meta::is_view_v<V> ? "1 " : "0 ") + dump(v);
 }
 std::string handle(const std::string& op, const Args& a) {
     if (op != "adl") return "unknown-op";
-    auto A = mk(nats(a, "a"), 0), B = mk(nats(a, "b"), 1000);
-    auto v = view::matmul(A, B);
-    auto e = na::matmul(A, B);
-    auto dv = dump(v), de = dump(e);
-    if (dv != de) return "view-eval-differ view{" + dv + "} eval{" + de + "}";
-    return "ok " + de;
+    std::string what = get(a, "what");
+    auto A = mk(nats(a, "a"), 0);
+    if (what == "matmul") {
+        auto B = mk(nats(a, "b"), 1000);
+        auto v = view::matmul(A, B);
+        auto e = na::matmul(A, B);
+        auto dv = dump(v), de = dump(e);
+        if (dv != de) return "view-eval-differ view{" + dv + "} eval{" + de + "}";
+        return "ok " + de;
+    }
+    if (what == "flip") { auto ax = intsi(a, "axis"); return "ok " + lazy(view::flip(A, ax)); }
+    if (what == "slice") {
+        auto s = nats(a, "a"); if (s.size() != 2) throw bad_args("a");
+        return "ok " + lazy(view::slice(A, nmtools_tuple{0, (int)s[0]}, nmtools_tuple{1, (int)s[1]}));
+    }
+    if (what == "split") { auto parts = view::split(A, 2, 0); return "ok " + lazy(nm::at(nm::unwrap(parts), 0)); }
+    if (what == "sum") { int ax = (int)integer(a, "axis"); return "ok " + dump(na::sum(A, ax)); }
+    if (what == "cumsum") { int ax = (int)integer(a, "axis"); return "ok " + dump(na::cumsum(A, ax, nm::None)); }
+    return "bad-args";
 }
